@@ -39,7 +39,10 @@ REQUIRED = ["check_order_irrelevant_for_accept", "valid_only_if", "key_is_from_t
             "fact_algorithm_fits_key_table", "fact_status_list_constants",
             "issued_credential_passes_its_validator", "issuer_refuses_malformed_authorization_credential", "api_vp_valid_only_if",
             "ambObj_iff", "amb_order_irrelevant", "topVariant_iff", "caseVariantMember_false_iff",
-            "entryValidOf_iff", "accepted_credential_has_well_formed_status_entries", "fact_status_entry_validate_sequence"]
+            "entryValidOf_iff", "accepted_credential_has_well_formed_status_entries", "fact_status_entry_validate_sequence",
+            # deepening round 2: statusListIndex text -> slot (strconv.Atoi inside the model)
+            "indexOfText_some_iff", "negative_index_text_is_refused", "accepted_status_index_text_denotes_the_slot",
+            "status_decision_reads_the_denoted_bit", "set_bit_at_denoted_slot_is_never_valid", "fact_default_validator_sequence"]
 
 SCAN_KINDS = ("time", "flags", "trust", "revoked")
 PROOF_OPTS = ("shape", "typ", "vm", "purpose", "created", "expires", "domain", "challenge", "nonce")
@@ -128,6 +131,50 @@ def go_member(d, k):
         if kk.lower() == k.lower():
             return v
     return None
+
+
+def status_defects(text):
+    """what the property's reader expects of the credentialStatus of an ACCEPTED credential, recomputed from the raw document text
+    (deepening round 2): every entry has an id and a type; a StatusList2021Entry needs the status-list context, an id that is not the
+    list's URL, a purpose, a list URL, and an index that is a plain non-negative decimal int64 ("-0" is Go's zero)"""
+    doc = json.loads(text)
+    st = doc.get("credentialStatus")
+    if st is None:
+        return []
+    entries = [st] if isinstance(st, dict) else st
+    if not isinstance(entries, list):
+        return ["credentialStatus-not-an-object-or-list"]
+    ctxs = doc.get("@context")
+    ctxs = ctxs if isinstance(ctxs, list) else [ctxs]
+    out = []
+    for n, e in enumerate(entries):
+        w = f"entry-{n}-of-{len(entries)}-"
+        if not isinstance(e, dict):
+            out.append(w + "not-an-object")
+            continue
+        if not isinstance(e.get("id"), str) or e["id"] == "":
+            out.append(w + "without-id")
+        if not isinstance(e.get("type"), str) or e["type"] == "":
+            out.append(w + "without-type")
+        if e.get("type") != "StatusList2021Entry":
+            continue
+        if "https://w3id.org/vc/status-list/2021/v1" not in ctxs:
+            out.append(w + "status-list-context-missing")
+        if e.get("id") == e.get("statusListCredential"):
+            out.append(w + "id-is-the-list-url")
+        if not isinstance(e.get("statusPurpose"), str) or e["statusPurpose"] == "":
+            out.append(w + "without-purpose")
+        if not isinstance(e.get("statusListCredential"), str) or e["statusListCredential"] == "":
+            out.append(w + "without-list-url")
+        ix = e.get("statusListIndex")
+        m = re.fullmatch(r"([+-]?)([0-9]+)", ix) if isinstance(ix, str) else None
+        if m is None:
+            out.append(w + "index-not-a-decimal-number")
+        else:
+            v = int(m.group(2))
+            if (m.group(1) == "-" and v != 0) or v > 2 ** 63 - 1:
+                out.append(w + "index-negative-or-out-of-range")
+    return out
 
 
 def subject_defects(text, kind, valid_ops):
@@ -243,6 +290,12 @@ def run_subject_legs(ctx, facts):
                     n_bad += 1
                     vio(f"C01:validator-accepts-malformed-subject:{kind}:" + re.sub(r"\d+", "N", why[0]),
                         f"{op.get('label')}: a {first} is reported valid although: {', '.join(why)}", i)
+            if line == "ok":
+                why = status_defects(op["text"])
+                if why:
+                    n_bad += 1
+                    vio("C01:validator-accepts-malformed-status-entry:" + re.sub(r"\d+", "N", why[0]),
+                        f"{op.get('label')}: a credential is reported valid although its credentialStatus has: {', '.join(why)}", i)
             if line != "ok" and op.get("label", "").endswith(":base"):
                 n_bad += 1
                 vio(f"C01:validator-rejects-wellformed:{kind}", f"{op.get('label')}: a well-formed {first} is rejected", i)
@@ -326,7 +379,7 @@ def run_subject_legs(ctx, facts):
 def run(ctx):
     ctx.level = "proof (decision logic) + conditional tamper-evidence; PARTIAL by construction on canonicalisation and cryptography (contracts)"
     facts = ctx.facts()
-    thms = ctx.build_and_audit(["NutsProofs.Props.C01", "NutsProofs.Props.C01Subject", "NutsProofs.Props.C01CaseVariant"])
+    thms = ctx.build_and_audit(["NutsProofs.Props.C01", "NutsProofs.Props.C01Subject", "NutsProofs.Props.C01CaseVariant", "NutsProofs.Props.C01Status"])
     for r in REQUIRED:
         if not any(t.endswith("Props." + r) for t in thms):
             ctx.oblige("thm-present:" + r, False, "theorem missing or its module does not build")
